@@ -9,8 +9,9 @@ Local Open Scope N_scope.
 
 Section Wrapper.
   Variable d : dfa.
-  Variables ids modes statuses : list N.
-  Notation payload := (payload_at ids modes statuses).
+  Variable ids : list N.
+  Variable tb : dtabs.
+  Notation payload := (payload_at ids tb).
 
   Notation item := (item_of payload d).
   Notation tstate := (st N pitem).
@@ -29,7 +30,7 @@ Section Wrapper.
     cbn [drain] in H. destruct (sres s) as [|b r].
     - inversion H; subst. split; [exact Hc|exact I].
     - destruct (dbyte (set_res s r) b) as [s1 o1] eqn:Hb.
-      destruct (decode_byte_cand_ok d ids modes statuses _ _ _ _ Hb Hc) as [Hc1 Ho1].
+      destruct (decode_byte_cand_ok d ids tb _ _ _ _ Hb Hc) as [Hc1 Ho1].
       destruct o1 as [t|].
       + inversion H; subst. split; assumption.
       + apply (IH _ _ _ H Hc1).
@@ -41,7 +42,7 @@ Section Wrapper.
     induction input as [|b r IH]; intros s s' o rest H Hc.
     - cbn in H. inversion H; subst. split; [exact Hc|exact I].
     - cbn [scan_input] in H. destruct (dbyte s b) as [s1 o1] eqn:Hb.
-      destruct (decode_byte_cand_ok d ids modes statuses _ _ _ _ Hb Hc) as [Hc1 Ho1].
+      destruct (decode_byte_cand_ok d ids tb _ _ _ _ Hb Hc) as [Hc1 Ho1].
       destruct o1 as [t|].
       + inversion H; subst. split; assumption.
       + apply (IH _ _ _ _ H Hc1).
@@ -124,11 +125,12 @@ End Wrapper.
 (* ------------------------------------------------------------------ *)
 Section Main.
   Variable d : dfa.
-  Variables ids modes statuses : list N.
+  Variable ids : list N.
+  Variable tb : dtabs.
   Variables VL VT VC : cert.
-  Hypothesis Hcerts : certs_ok d ids VL VT VC = true.
+  Hypothesis Hcerts : certs_ok d ids tb VL VT VC = true.
 
-  Notation payload := (payload_at ids modes statuses).
+  Notation payload := (payload_at ids tb).
   Notation item := (item_of payload d).
   Notation run := (run N (d_start d) (d_delta d)).
 
@@ -145,7 +147,7 @@ Section Main.
     unfold t_munch. eapply Forall_impl; [|exact H]. intros t [(q & Hq & Ha & Ht)|Ht].
     - rewrite Ht. unfold mk_tok. destruct (item q (span t)) as [it|] eqn:E; [|exact I].
       destruct it as [e|e|site]; try exact I. cbn.
-      apply (item_no_panic d ids modes statuses VL VT VC Hcerts _ _ Hq Ha site E).
+      apply (item_no_panic d ids tb VL VT VC Hcerts _ _ Hq Ha site E).
     - rewrite Ht. exact I.
   Qed.
 
@@ -184,8 +186,8 @@ Section Main.
     Inv N pitem (d_start d) (d_delta d) (d_accepting d) (d_terminal d) item s ->
     call_of d s b = Some (q', w) -> item q' w <> Some (IPanic site).
   Proof.
-    intros HI Hc. destruct (call_accepted d ids modes statuses s b q' w HI Hc) as [Hq Ha].
-    apply (item_no_panic d ids modes statuses VL VT VC Hcerts _ _ Hq Ha site).
+    intros HI Hc. destruct (call_accepted d ids tb s b q' w HI Hc) as [Hq Ha].
+    apply (item_no_panic d ids tb VL VT VC Hcerts _ _ Hq Ha site).
   Qed.
 End Main.
 
